@@ -866,6 +866,12 @@ def stream_ops(ctx):
             st.disagree(case, 'state not expressible in the model', str(e), origin)
     st.extra['corpus_cases'] = ncorp
     st.extra['calls_by_kind'] = dict(sorted(kinds.items()))
+    # coverage floor: a generator that silently degenerates makes the check fail closed
+    need = ['remove', 'add', 'define', 'scale', 'panel', 'extract_into', 'extract', 'split', 'sample', 'sample_imap',
+            'count', 'sample_size', 'nobs', 'flatten', 'remove!', 'add!', 'panel!', 'extract!', 'split!', 'flatten!']
+    missing = [k for k in need if kinds.get(k, 0) < 3]
+    if missing:
+        ctx.stream_broken('ops', f'coverage floor not reached: fewer than 3 calls of kind {missing} (! = raising)')
     B = 200
     files = {}
     for b in range(0, len(items), B):
